@@ -411,10 +411,25 @@ func main() {
 						a1 = a1 || ((q.K == oAnn && q.Item == 1) || q.K == oAnnBoth)
 						a2 = a2 || ((q.K == oAnn && q.Item == 2) || q.K == oAnnBoth)
 					}
-					// The one-entry-cache variants are not generated: with HashLimit=1 the unmodified fetcher evicts an
-					// item by its own second announcement (weight = number of announcements) and leaves a stale
-					// "fetching" entry behind, so timing obligations cannot be stated soundly for such degenerate limits.
-					_ = a1 && a2
+					// One-entry announce cache (HashLimit=1): a second item evicts the first.  Only scripts in which no
+					// item is announced twice in a row are used: with such a limit the unmodified fetcher evicts an
+					// item by its own second announcement (the weight is the number of announcements), a degenerate
+					// configuration in which no timing obligation can be stated.
+					okTiny, last := a1 && a2, 0
+					for _, q := range cur {
+						if q.K == oAnnBoth {
+							okTiny = false
+						}
+						if q.K == oAnn {
+							if q.Item == last {
+								okTiny = false
+							}
+							last = q.Item
+						}
+					}
+					if okTiny {
+						progs = append(progs, program{Script: append([]op{}, cur...), Settle: true, TinyCache: true})
+					}
 					break
 				}
 			}
